@@ -49,6 +49,7 @@ def o1(W, ob):
                      'the guard of Event::%s in poll is %s; expected `state is Running & last_recv_time + %s < now`' % (
                          variant, dnf_str(g)[:300], field.split('.')[-1]), where(f, s.line))
     n = only_writers(W, ob, 'last_recv_time', 'UdpProtocol', [UDP + '::handle_message'], 'O1', kinds=('store',))
+    liveness_refresh(W, ob)
     ob.require_count(n, 1, 'stores to last_recv_time')
     # NetworkInterrupted announces disconnect_timeout - disconnect_notify_start
     for s in event_constructions(W, f, 'Event', 'NetworkInterrupted'):
@@ -71,6 +72,31 @@ def o1(W, ob):
         ob.check(any(diff(x) for x in vals) and all(diff(x) or zero(x) for x in vals),
                  'poll|interrupted-remaining', 'NetworkInterrupted carries timeout - notify_start',
                  'NetworkInterrupted.disconnect_timeout := %s' % v, where(f, s.line))
+
+
+def liveness_refresh(W, ob):
+    """every message that gets past the filters -- in EVERY protocol state, the handshake included -- refreshes last_recv_time: the silence the timeout
+    guards measure starts at the last accepted packet, not at the last packet received while Running (or at construction)"""
+    f = W.fn(UDP + '::handle_message')
+    cfg = cfg_of(f)
+    st = stores_in(W, f, 'last_recv_time')
+    ob.require_count(len(st), 1, 'stores to last_recv_time in handle_message')
+    handlers = [t for t in f.calls() if t.callee.indirect is None and any(callee_matches(t.callee, UDP + '::' + h) for h in
+                ('on_sync_request', 'on_sync_reply', 'on_input', 'on_input_ack', 'on_quality_report', 'on_quality_reply', 'on_checksum_report'))]
+    ob.require_count(len(handlers), 7, 'handler dispatch sites')
+    sb = [w['bb'] for w in st]
+    # the dispatch point: the nearest block that dominates every handler call (the `match` on the body); the KeepAlive arm leaves from it too
+    doms = None
+    for t in handlers:
+        d = set(cfg.dominators().get(t.bb, ()))
+        doms = d if doms is None else doms & d
+    doms = doms or set()
+    dispatch = max(doms, key=lambda b: len(cfg.dominators().get(b, ()))) if doms else None
+    for b in ([dispatch] if dispatch is not None else []) + [t.bb for t in handlers]:
+        p = None if b in sb else cfg.path_avoiding([b], sb)   # a store in the dispatching block itself precedes its terminator
+        ob.check(p is None, 'handle_message|refresh-before-dispatch', 'every accepted message refreshes last_recv_time before it is dispatched',
+                 'a message can be dispatched without refreshing last_recv_time (in some protocol state accepted packets do not count as a sign of life): the timeout '
+                 'guards then measure silence from an older packet or from construction', where(f, f.blocks[b].term.line), witness=path_str(f, p) if p else None)
 
 
 def check_and_set(W, ob, variant, flag, floor):
@@ -219,7 +245,7 @@ OBLIGATIONS = [
     ('C07.O5', 'same cut-off predicate everywhere (= C03.O2)', 'see C03.O2', c03.o2),
     ('C07.O6', 'the cut-off is final (= C03.O4)', 'inputs of a player already marked disconnected are ignored (see C03.O4)', c03.o4),
     ('C07.O7', 'the pending disconnect frame takes part in the rollback (= C01.O1, C01.O7)', 'see C01.O7', c01.o7),
-    ('C07.H', 'helpers the rules above rely on', 'the bodies of the helpers named by this property\'s rules compute what the rules assume (endpoint_getters, protocol_state_tests); see rules/helpers.py', helpers.bundle('endpoint_getters', 'protocol_state_tests')),
+    ('C07.H', 'helpers the rules above rely on', 'the bodies of the helpers named by this property\'s rules compute what the rules assume (endpoint_getters, protocol_state_tests); see rules/helpers.py', helpers.bundle('endpoint_getters', 'protocol_state_tests', 'from_inputs')),
     ('C07.W', 'configuration wiring', 'at every call site that passes a field read `x.B` for a parameter `A` the callee has no same-typed parameter `B`; in every struct literal no parameter `B` is stored in field `A` while a same-typed parameter `A` / field `B` exists (builder -> constructor -> endpoint fields: timeouts, window, fps are not crossed); see rules/wiring.py', wiring.rule),
     ('C07.I', 'initial state', 'every constructor gives the fields this property\'s rules interpret (NULL_FRAME = none / nothing yet, 0 = first frame, latches open, typestate start) the value listed in tables/initial_state.json; every field compared with NULL_FRAME anywhere is listed; see rules/initial.py', initial.rule_for('C07')),
 ]
